@@ -9,6 +9,7 @@ import (
 	"time"
 
 	"cosmossdk.io/core/appmodule"
+	abci "github.com/cometbft/cometbft/abci/types"
 	"cosmossdk.io/math"
 	sdk "github.com/cosmos/cosmos-sdk/types"
 
@@ -387,12 +388,22 @@ func (w *World) applyMsg(o Op) (res Result) {
 	cc, write := w.Ctx.CacheContext()
 	func() {
 		defer recoverTo(&res)
-		_, err := h(cc, msg)
+		r, err := h(cc, msg)
 		if err != nil {
 			res.Err = err.Error()
 			return
 		}
 		res.OK = true
+		// the router runs the handler with its own event manager and returns the events
+		if r != nil {
+			for _, e := range r.GetEvents() {
+				ev := sdk.Event{Type: e.Type}
+				for _, a := range e.Attributes {
+					ev.Attributes = append(ev.Attributes, abci.EventAttribute{Key: a.Key, Value: a.Value})
+				}
+				w.Ctx.EventManager().EmitEvent(ev)
+			}
+		}
 	}()
 	if res.OK {
 		write()
